@@ -61,19 +61,22 @@ def run_case(i, tier, seed):
     level = ["1.1", "1.5"][i % 2]
     r = _one_product(i, tier, seed, rng, inst, cls, level)
     if i % 3 == 1:
-        # the same process then opens a product acquired on the DAY BEFORE (a little later in the day): anything a decoder
-        # remembers about "the current day" from the first product must not leak into the second
+        # the same process then opens products acquired EARLIER than what it decoded last (the first product's second image ends
+        # on the day after `inst`): on the same day as `inst` and on the day before, a little later in the day. Anything a decoder
+        # remembers about "the current day" must not leak from one product into the next.
         import datetime
 
-        d = datetime.date(inst["year"], 1, 1) + datetime.timedelta(days=inst["doy"] - 2)
-        earlier = {"year": d.year, "doy": (d - datetime.date(d.year, 1, 1)).days + 1, "ms": min(86399999, inst["ms"] + rng.randrange(0, 3600000)), "us": inst["us"]}
-        r2 = _one_product(i, tier, seed, rng, earlier, cls + "|day-before", level)
-        for v in r2["violations"]:
-            v["what"] = "[second product of this process, acquired one day before the first] " + v["what"]
-        r["violations"] += r2["violations"]
-        r["evals"] += r2["evals"]
-        for k2, v2 in r2["obs"].items():
-            r["obs"][k2] = r["obs"].get(k2, 0) + v2
+        for back in (1, 2):
+            d = datetime.date(inst["year"], 1, 1) + datetime.timedelta(days=inst["doy"] - back)
+            earlier = {"year": d.year, "doy": (d - datetime.date(d.year, 1, 1)).days + 1,
+                       "ms": min(86399990, (inst["ms"] if back == 2 else 0) + rng.randrange(1, 3600000)), "us": inst["us"]}
+            r2 = _one_product(i, tier, seed, rng, earlier, cls + "|earlier", level)
+            for v in r2["violations"]:
+                v["what"] = f"[product {back + 1} of this process, acquired before what was decoded last] " + v["what"]
+            r["violations"] += r2["violations"]
+            r["evals"] += r2["evals"]
+            for k2, v2 in r2["obs"].items():
+                r["obs"][k2] = r["obs"].get(k2, 0) + v2
         r["obs"]["earlier_day_second"] = 1
     return r
 
